@@ -51,8 +51,14 @@ where
     T: FileReader,
 {
     lexer_stack: Vec<Peekable<Lexer>>,
+    /// The files that are currently open, innermost last (parallel to `lexer_stack`)
+    file_stack: Vec<Uuid>,
     pub reader: T,
 }
+
+/// Includes nested deeper than this are refused (a cycle that cannot be
+/// recognised by file name would otherwise never end).
+const MAX_INCLUDE_DEPTH: usize = 64;
 
 impl<T: FileReader> RVParser<T> {
     pub fn run(&mut self, base: &str) -> Vec<DiagnosticItem> {
@@ -79,6 +85,7 @@ impl<T: FileReader> RVParser<T> {
     pub fn new(reader: T) -> RVParser<T> {
         RVParser {
             lexer_stack: Vec::new(),
+            file_stack: Vec::new(),
             reader,
         }
     }
@@ -119,6 +126,7 @@ impl<T: FileReader> RVParser<T> {
         };
         let first_uuid = lexer.source_id;
         self.lexer_stack.push(lexer.peekable());
+        self.file_stack.push(first_uuid);
 
         // Add program entry node
         nodes.push(ParserNode::new_program_entry(
@@ -135,8 +143,22 @@ impl<T: FileReader> RVParser<T> {
                         if let Some(path) = x.get_include_path() {
                             match self.reader.import_file(path.get(), Some(path.file())) {
                                 Ok((new_uuid, new_text)) => {
-                                    self.lexer_stack
-                                        .push(Lexer::new(new_text, new_uuid).peekable());
+                                    // A file that is still open must not be
+                                    // included again: it would never end
+                                    let new_name = self.reader.get_filename(new_uuid);
+                                    let is_open = new_name.is_some()
+                                        && self.file_stack.iter().any(|open| {
+                                            self.reader.get_filename(*open) == new_name
+                                        });
+                                    if is_open || self.file_stack.len() >= MAX_INCLUDE_DEPTH {
+                                        parse_errors.push(ParseError::CyclicDependency(Box::new(
+                                            path.token().clone(),
+                                        )));
+                                    } else {
+                                        self.lexer_stack
+                                            .push(Lexer::new(new_text, new_uuid).peekable());
+                                        self.file_stack.push(new_uuid);
+                                    }
                                 }
                                 Err(error) => {
                                     parse_errors.push(error.to_parse_error(path.clone()));
@@ -165,6 +187,7 @@ impl<T: FileReader> RVParser<T> {
                     }
                     LexError::UnexpectedEOF => {
                         self.lexer_stack.pop();
+                        self.file_stack.pop();
                     }
                     LexError::IncompleteStatement(x) => {
                         parse_errors.push(ParseError::IncompleteStatement(x));
